@@ -196,3 +196,44 @@ def validate_traces(traces, module='Trace_EAOModel', timeout=1800, keep=None, sp
         return [verdicts[i + 1] for i in range(len(traces))], dict(generated=r['generated'], distinct=r['distinct'], wall=round(r['wall'], 2))
     finally:
         shutil.rmtree(wd, ignore_errors=True)
+
+
+def portfolio_trace(portf, op, res, out, K=1000, tol=5):
+    """trace for Trace_Portfolio (any asset types): reported dispatch per (asset, node, step), the dispatch implied by x
+    through the mapping, the DCF table, -c_a.x_a and the value"""
+    nodes = list(portf.nodes.keys())
+    assets = portf.assets
+    T = portf.timegrid.T
+    m = op.mapping
+    x = np.asarray(res.x, float)
+    c = np.asarray(op.c, float)
+    multi = len(nodes) > 1
+    df = m['disp_factor'].fillna(1.).values if 'disp_factor' in m.columns else np.ones(len(m))
+    xflow = np.zeros((len(assets), len(nodes), T))
+    aidx = {a.name: i for i, a in enumerate(assets)}
+    nidx = {n: i for i, n in enumerate(nodes)}
+    for lab, an, nd, ts, ty, f in zip(m.index.values, m['asset'].values, m['node'].values, m['time_step'].values, m['type'].values, df):
+        if ty == 'd' and an in aidx and nd in nidx and 0 <= int(ts) < T:
+            xflow[aidx[an], nidx[nd], int(ts)] += x[int(lab)] * f
+    # SLP problems report the average over samples for future steps; not handled here
+    steps = []
+    disp = out['dispatch']
+    for t in range(T):
+        ev = dict(rflow=[], xflow=[], dcf=[])
+        for i, a in enumerate(assets):
+            rf = []
+            for n in nodes:
+                col = (a.name + ' (' + n + ')') if multi else a.name
+                rf.append(fx(disp[col].iloc[t], K) if (col in disp.columns and n in a.node_names) else 0)
+            ev['rflow'].append(rf)
+            ev['xflow'].append([fx(xflow[i, j, t], K) for j in range(len(nodes))])
+            ev['dcf'].append(fx(out['DCF'][a.name].iloc[t], K))
+        steps.append(ev)
+    cx = []
+    for a in assets:
+        vars_ = np.unique(m.index[m['asset'] == a.name].values).astype(int)
+        cx.append(fx(float(-c[vars_] @ x[vars_]), K))
+    scale = max(1.0, float(np.abs(c).max()) if len(c) else 1.0)
+    return dict(T=T, nodes=nodes, NA=len(assets), attach=[[nidx[n] + 1 for n in a.node_names if n in nidx] for a in assets],
+                steps=steps, cx=cx, rval=fx(float(out['summary'].loc['value', 'Values']), K), tol=tol,
+                vtol=int(tol * scale * (T + 2) * 2 + 1e-6 * K * abs(float(res.value)) + 2), names=[a.name for a in assets])
